@@ -42,3 +42,9 @@ func (bm *BucketManager) VerifBucketOf(host string) *tokenBucket {
 
 // VerifHosts is the number of buckets in the table.
 func (bm *BucketManager) VerifHosts() int { return len(bm.buckets) }
+
+// VerifManagedBucket returns a fresh bucket built the way the archiver gets one: through a
+// BucketManager configured with these values (table of one entry, so the previous bucket is evicted).
+func VerifManagedBucket(bm *BucketManager, host string) *tokenBucket {
+	return bm.getBucket(host).bucket
+}
